@@ -162,7 +162,7 @@ def fault_stmt(rng, kind, eq):
     if kind == 'warn':
         a = ['warnset', eq, lib.fhex(rng.choice([float('inf'), float('nan'), float('-inf'), 7.0]))]
         return a + ['user'] if rng.random() < 0.3 else a          # a warning of another category than NumPy's RuntimeWarning
-    return ['raise', rng.choice([10, 11, 12, 13, 14])]
+    return ['raise', rng.choice([10, 11, 12, 13, 14, 20, 21, 22, 23])]      # built-in classes and fsic's own (SolutionError, NonConvergenceError, subclasses)
 
 
 def placed_case(rng, kind, eq, k, p, errors, failures, cf, mnmx=None, persist=None):
@@ -225,10 +225,20 @@ PARSED = [
     ('Y = nosuchfunction(X)', {'X': [1.0], 'Y': [0.0]}),
     ('Y = 0.5 * Y + X\nZ = Y / (Y - 2)', {'X': [1.0, 0.0], 'Y': [0.0, 2.0, 4.0], 'Z': [0.0]}),
 ]
+# QUIET programs: every operation on these values gives a finite result and NumPy reports nothing under its default settings — at
+# most the arithmetic UNDERFLOWS (exp(-800) = 0.0, 1e-200 * 1e-200 = 0.0, a subnormal).  A finite, warning-free-by-default pass is not
+# a numerical error: whatever errors / catch_first_error are, such a period must never end in SolutionError.
+QUIET = [
+    ('Y = exp(X)', {'X': [-800.0, -745.0, -710.0, 1.0, 0.0], 'Y': [0.0, 1.0]}),
+    ('Y = A * B', {'A': [1e-200, 1e-170, 2.0], 'B': [1e-200, 1e-160, 0.5], 'Y': [0.0, 1.0]}),
+    ('Z = exp(X) * Y\nW = Z * Z', {'X': [-400.0, -800.0, 1.0], 'Y': [1e-100, 1.0], 'Z': [0.0], 'W': [0.0]}),
+    ('Y = 0.5 * Y + exp(X)', {'X': [-800.0, -1.0], 'Y': [0.0, 2.0]}),
+]
 
 
 def parsed_case(rng):
-    eqs, init = PARSED[rng.randrange(len(PARSED))]
+    quiet = rng.random() < 0.25
+    eqs, init = (QUIET if quiet else PARSED)[rng.randrange(len(QUIET if quiet else PARSED))]
     n = rng.choice([2, 3])
     p = rng.randrange(1, n)
     t = p if rng.random() < 0.7 else p - n
@@ -241,12 +251,12 @@ def parsed_case(rng):
     for nm, cands in init.items():
         row = [1.0] * n
         row[p] = rng.choice(cands)
-        if rng.random() < 0.1:
+        if rng.random() < 0.1 and not quiet:
             row[p] = rng.choice([float('nan'), float('inf')])
         if p >= 1:
             row[p - 1] = rng.choice(cands)
         ini[nm] = [lib.fhex(x) for x in row]
-    return {'kind': 'parsed', 'equations': eqs, 'n': n, 't': t, 'opts': o, 'init': ini}
+    return {'kind': 'parsed', 'equations': eqs, 'n': n, 't': t, 'opts': o, 'init': ini, 'quiet': quiet}
 
 
 def multi_case(rng):
@@ -445,6 +455,11 @@ def oracle(case, obs):
         return oracle_multi(case, obs)
     if case.get('kind') == 'hist':
         return oracle_hist(case, obs)
+    if case.get('kind') == 'parsed' and case.get('quiet') and obs['out'][:2] == ['raise', 'SolutionError']:
+        return [{'sig': 'C06|quiet-finite-pass-raised', 'what': 'every value of %r stays finite and NumPy reports nothing for it under its default '
+                 'settings (the arithmetic at most underflows): this is no numerical error under any policy, yet solve_t(%d, errors=%r, '
+                 'catch_first_error=%r) raised %s after passes %s' % (case['equations'], case['t'], case['opts']['errors'],
+                                                                      case['opts']['catch_first_error'], obs['out'], obs['passvecs'])}]
     fails = []
 
     def bad(sig, what):
@@ -512,6 +527,9 @@ def oracle(case, obs):
             cls = raised[('pass', k)]
             if out != ['raise', 'SolutionError', cls] or m != k:
                 bad('pass-exception', 'an exception inside evaluation pass %d (%s) must surface as SolutionError chained to it; got %s' % (k, cls, out))
+            if out[:2] == ['raise', 'SolutionError'] and obs.get('cause_is_original') is False:
+                bad('pass-exception', 'the SolutionError must be a NEW exception whose __cause__ is the very object raised inside pass %d (%s); '
+                    'what surfaced was the original itself or was chained to something else' % (k, cls))
             if errors == 'raise' and (st, it) != ('E', k):
                 bad('pass-exception-record', 'under errors="raise" an evaluation-pass exception records status E and the pass number %d; got %r, %d' % (k, st, it))
             # catch_first_error: the statement that produced the warning did not store its result
